@@ -70,19 +70,34 @@ impl DSSEParser for PaeV1 {
 
         // Extract payload_ver from bytes
         let (payload_ver_len, raw) = consume_load_len(raw)?;
-        let payload_ver = str::from_utf8(&raw[0..payload_ver_len])?
-            .parse::<String>()
-            .map_err(|_| {
-                Error::PAEParseFailed(format!(
-                    "parse to string failed for {:?}",
-                    raw
-                ))
-            })?;
+        let too_short = |what: &str, raw: &[u8]| {
+            Error::PAEParseFailed(format!(
+                "{} is shorter than its announced length in {:?}",
+                what, raw
+            ))
+        };
+        let payload_ver = str::from_utf8(
+            raw.get(0..payload_ver_len)
+                .ok_or_else(|| too_short("payload type", raw))?,
+        )?
+        .parse::<String>()
+        .map_err(|_| {
+            Error::PAEParseFailed(format!(
+                "parse to string failed for {:?}",
+                raw
+            ))
+        })?;
 
         // Extract payload from bytes
-        let (payload_len, raw) =
-            consume_load_len(&raw[(payload_ver_len + 1)..])?;
-        let payload = raw[0..payload_len].to_vec();
+        let rest = payload_ver_len
+            .checked_add(1)
+            .and_then(|start| raw.get(start..))
+            .ok_or_else(|| too_short("payload type", raw))?;
+        let (payload_len, raw) = consume_load_len(rest)?;
+        let payload = raw
+            .get(0..payload_len)
+            .ok_or_else(|| too_short("payload", raw))?
+            .to_vec();
 
         Ok((payload, payload_ver))
     }
